@@ -23,7 +23,7 @@ type schedPlan struct {
 	Points uint32 `json:"points"` // bit mask of perturbed points (bit n = point n)
 }
 
-var schedVisits [16]atomic.Uint64
+var schedVisits [32]atomic.Uint64
 var schedHits atomic.Uint64
 
 func mix64(x uint64) uint64 {
@@ -43,9 +43,9 @@ func drawSched(rt *rapid.T) schedPlan {
 	// either all points or a single one (a single perturbed point keeps the rest of the system fast,
 	// so the other goroutines reach the widened window)
 	if rapid.Bool().Draw(rt, "sched-all") {
-		p.Points = 0xffff
+		p.Points = 0xffffffff
 	} else {
-		p.Points = 1 << uint(rapid.IntRange(1, 10).Draw(rt, "sched-point"))
+		p.Points = 1 << uint(rapid.IntRange(1, 16).Draw(rt, "sched-point"))
 	}
 	return p
 }
